@@ -43,9 +43,15 @@ pub fn negamax(
     let is_root = plies == 0;
     let is_pv = alpha != beta - Eval(1);
 
+    #[cfg(jgilchrist_tcheran_verif)]
+    crate::engine::util::verif::node("N", plies, [i32::from(alpha.0), i32::from(beta.0), i32::from(depth)], &[]);
+
     // Check periodically to see if we're out of time. If we are, we shouldn't continue the search
     // so we return Err to signal to the caller that the search did not complete.
     if ctx.time_control.should_stop(ctx.nodes_visited) {
+        #[cfg(jgilchrist_tcheran_verif)]
+        crate::engine::util::verif::node("X", plies, [0; 3], &[]);
+
         return Err(());
     }
 
@@ -56,6 +62,9 @@ pub fn negamax(
             || game.is_stalemate_by_fifty_move_rule()
             || game.is_stalemate_by_insufficient_material())
     {
+        #[cfg(jgilchrist_tcheran_verif)]
+        crate::engine::util::verif::node("D", plies, [0; 3], &[]);
+
         return Ok(Eval::DRAW);
     }
 
@@ -67,6 +76,9 @@ pub fn negamax(
     }
 
     if depth == 0 {
+        #[cfg(jgilchrist_tcheran_verif)]
+        crate::engine::util::verif::node("L", plies, [0; 3], &[]);
+
         return quiescence(game, alpha, beta, plies, ctx);
     }
 
@@ -79,6 +91,14 @@ pub fn negamax(
     if let Some(tt_entry) = ctx.tt.get(&game.zobrist) {
         if !is_root && !is_pv && tt_entry.depth >= depth {
             let tt_score = tt_entry.eval.with_mate_distance_from_root(plies);
+
+            #[cfg(jgilchrist_tcheran_verif)]
+            crate::engine::util::verif::node(
+                "T",
+                plies,
+                [tt_entry.bound.clone() as i32, i32::from(tt_entry.eval.0), i32::from(tt_score.0)],
+                &[],
+            );
 
             match tt_entry.bound {
                 NodeBound::Exact => return Ok(tt_score),
@@ -137,11 +157,17 @@ pub fn negamax(
 
     let eval = eval::eval(game);
 
+    #[cfg(jgilchrist_tcheran_verif)]
+    crate::engine::util::verif::node("S", plies, [i32::from(eval.0), i32::from(depth), i32::from(in_check)], &[]);
+
     if !is_root && !is_pv && !in_check {
         // Reverse futility pruning
         if depth <= params::REVERSE_FUTILITY_PRUNE_DEPTH
             && eval - params::REVERSE_FUTILITY_PRUNE_MARGIN_PER_PLY * i16::from(depth) > beta
         {
+            #[cfg(jgilchrist_tcheran_verif)]
+            crate::engine::util::verif::node("F", plies, [i32::from(beta.0), 0, 0], &[]);
+
             return Ok(beta);
         }
 
@@ -152,6 +178,9 @@ pub fn negamax(
             && game.history.last().is_none_or(|m| m.mv.is_some())
         {
             game.make_null_move();
+
+            #[cfg(jgilchrist_tcheran_verif)]
+            crate::engine::util::verif::node("M0", plies, [0; 3], &[]);
 
             let null_score = -negamax(
                 game,
@@ -164,6 +193,9 @@ pub fn negamax(
             )?;
 
             game.undo_null_move();
+
+            #[cfg(jgilchrist_tcheran_verif)]
+            crate::engine::util::verif::node("R0", plies, [i32::from(null_score.0), 0, 0], &[]);
 
             if null_score >= beta {
                 return Ok(null_score);
@@ -195,6 +227,9 @@ pub fn negamax(
 
         game.make_move(mv);
         number_of_legal_moves += 1;
+
+        #[cfg(jgilchrist_tcheran_verif)]
+        crate::engine::util::verif::node("M", plies, [number_of_legal_moves as i32, i32::from(alpha.0), 0], &[mv]);
 
         let move_score = if number_of_legal_moves == 1 {
             -negamax(game, -beta, -alpha, depth - 1, plies + 1, &mut node_pv, ctx)?
@@ -233,6 +268,9 @@ pub fn negamax(
             }
         };
 
+        #[cfg(jgilchrist_tcheran_verif)]
+        crate::engine::util::verif::node("R", plies, [i32::from(move_score.0), 0, 0], &[]);
+
         game.undo_move();
 
         if move_score > best_eval {
@@ -250,10 +288,16 @@ pub fn negamax(
             alpha = move_score;
             tt_node_bound = NodeBound::Exact;
             pv.push(mv, &node_pv);
+
+            #[cfg(jgilchrist_tcheran_verif)]
+            crate::engine::util::verif::node("P", plies, [0; 3], &pv.clone().into_iter().collect::<Vec<_>>());
         }
     }
 
     if number_of_legal_moves == 0 {
+        #[cfg(jgilchrist_tcheran_verif)]
+        crate::engine::util::verif::node("Z", plies, [i32::from(game.is_king_in_check()), 0, 0], &[]);
+
         return Ok(if game.is_king_in_check() {
             Eval::mated_in(plies)
         } else {
@@ -277,6 +321,14 @@ pub fn negamax(
             ctx.history_table.add_bonus_for(game.player, mv, depth);
         }
     }
+
+    #[cfg(jgilchrist_tcheran_verif)]
+    crate::engine::util::verif::node(
+        "O",
+        plies,
+        [i32::from(best_eval.0), tt_node_bound.clone() as i32, 0],
+        &best_move.into_iter().collect::<Vec<_>>(),
+    );
 
     let tt_data = SearchTranspositionTableData {
         bound: tt_node_bound,
